@@ -43,7 +43,7 @@ type sess struct {
 	ref     *h2fpref.State
 	next    uint32
 	acked   bool
-	open    uint32                   // an open (request body not ended) stream, 0 if none
+	open    uint32                    // an open (request body not ended) stream, 0 if none
 	after   map[uint32]*h2fpref.State // stream -> reference state right after its own HEADERS
 	mu      sync.Mutex
 	results []result
@@ -240,6 +240,9 @@ func runHistory(t *testing.T, hist []int, rep *ev.Report) (applicable bool, obs 
 	})
 	if res.Panic != nil {
 		viol = append(viol, fmt.Sprintf("panic: %v\n%s", res.Panic, res.Stack))
+	}
+	if res.Hang != "" {
+		rep.Violate(map[string]any{"kind": "hang"}, map[string]any{"hang": res.Hang}, "the exchange never completed: %s", res.Hang)
 	}
 	return
 }
